@@ -3,6 +3,10 @@
 import json
 props=[json.loads(l) for l in open('/verif/properties.jsonl')]
 claimed={
+ "C05": dict(level="model_checking",
+   text="The Resolve*WithBase entry points run from SSA on documents whose addressed member name is a vector of solver bytes over an escape-heavy alphabet; the reference is built by an independent oracle-side escaper, so every unescape-order / percent-decoding / typed-lookup mistake shows as a satisfying byte assignment. Error-iff-dangling, member-wise equality with the designated node, agreement of the three root representations and an unchanged root are the obligations.",
+   note="Trusted: as C02 plus the oracle's escaper. Bounds: names of 1-2/3 bytes, 2 documents.",
+   design="4 C05", technique="bounded symbolic execution of go/ssa (byte-vector names) + SMT (z3), counterexample replay"),
  "C16": dict(level="model_checking",
    text="Two- and three-call histories run from SSA starting from the pristine package state (package initialisers executed by the engine, the resolution cache initialised through its real sync.Once from the real embedded meta-schemas): a call repeated after calls on other worlds that reuse the same document URLs with different content must give the same result and the same loader log; options are compared field-wise; the built-in meta-schemas must stay resolvable, unmodified and never requested.",
    note="Trusted: as C02; M-sync sequential. Bounds: histories of 1-2 intervening calls, 4 call kinds.",
